@@ -552,6 +552,7 @@ def _walk_no_nested(node: ast.AST, include_lambdas: bool = True) -> Iterator[ast
     while stack:
         n = stack.pop()
         if not first and isinstance(n, (ast.FunctionDef, ast.AsyncFunctionDef, ast.ClassDef)):
+            yield n  # the definition itself is visible, its body is not
             continue
         if not first and not include_lambdas and isinstance(n, ast.Lambda):
             continue
